@@ -52,21 +52,28 @@ def run(ctx):
             games.append((fen.strip(), ms.split()))
     sessions = []
     for gi, (fen, ms) in enumerate(games):
-        def poscmd(f, moves):
-            head = "position startpos" if f == START and rng.random() < 0.7 else "position fen " + f
+        use_startpos = (fen == START and rng.random() < 0.7)
+
+        def poscmd(f, moves, use_startpos=use_startpos):
+            head = "position startpos" if (f == START and use_startpos) else "position fen " + f
             return head + (" moves " + " ".join(moves) if moves else "")
         lines = []
-        kind = gi % 4
+        kind = gi % 6
+        k = max(1, len(ms) // 2)
         if kind == 0:
             lines = [poscmd(fen, ms)]
         elif kind == 1:      # a refused command must leave the previous position in force
             other = games[(gi + 1) % len(games)]
-            lines = [poscmd(other[0], other[1]), poscmd(fen, corrupt(ms, rng))]
+            lines = [poscmd(other[0], other[1], other[0] == START), poscmd(fen, corrupt(ms, rng))]
         elif kind == 2:      # independence of earlier commands
             other = games[(gi + 7) % len(games)]
-            lines = [poscmd(other[0], other[1]), "ucinewgame", poscmd(fen, ms[:len(ms) // 2]), poscmd(fen, ms)]
-        else:
+            lines = [poscmd(other[0], other[1], other[0] == START), "ucinewgame", poscmd(fen, ms[:k]), poscmd(fen, ms)]
+        elif kind == 3:
             lines = [poscmd(fen, corrupt(ms, rng)), "isready", poscmd(fen, ms), poscmd(fen, corrupt(ms, rng))]
+        elif kind == 4:      # the same game extended after ucinewgame (as a GUI replaying a game does)
+            lines = [poscmd(fen, ms[:k]), "ucinewgame", poscmd(fen, ms)]
+        else:                # extended move by move, then a new game from the same start
+            lines = [poscmd(fen, ms[:k]), poscmd(fen, ms), "ucinewgame", poscmd(fen, ms[:1]), poscmd(fen, ms[:k] + ms[k:k + 1])]
         sessions.append(lines)
     # engine over the pipe
     eng_states = []
@@ -113,7 +120,31 @@ def run(ctx):
                                                "replay_cmd": "printf '%s\\nverifdump\\n' | (cat; sleep 1) | %s" % ("\\n".join(lines), C.ENGINE)})
                     violations.append({"replay": rp})
         cov["sessions"] = len(sessions)
-    cov["evaluations"] = len(sessions)
+    # ---- every coordinate string: accepted exactly when it is the notation of a legal move ----
+    acc_fens = (P.corpus() + P.bench_fens())[:40 if ctx["tier"] == "quick" else 200]
+    sq = [f + r for r in "12345678" for f in "abcdefgh"]
+    strings = [a + b for a in sq for b in sq] + [a + b + x for a in sq if a[1] in "27" for b in sq if b[1] in "18" and abs(ord(a[0]) - ord(b[0])) <= 1 for x in "qrbnk"]
+    rc, so, se = C.driver(["accepts"], "".join("%s | %s\n" % (f, " ".join(strings)) for f in acc_fens), timeout=900)
+    eng_acc = [set(l.split()) for l in so.splitlines()]
+    vals2, lg2 = C.coq_eval_items("c08a", U.HEADER, ["match from_fen %s with Some b => map to_notation (get_legal_moves b) | None => [] end" % B.coq_str(f) for f in acc_fens],
+                                  lambda l: l, nshards=C.NPROC, timeout=1500)
+    if vals2 is None or len(eng_acc) != len(acc_fens):
+        rp = C.write_replay(prop, {"broken": "move-string acceptance", "log": lg2[-1500:], "stderr": se[-300:]})
+        violations.append({"replay": rp, "no_input": True})
+    else:
+        nb2 = 0
+        for f, ea, mv in zip(acc_fens, eng_acc, vals2):
+            ma = set(mv) & set(strings)
+            ea = ea - {"-"}
+            if ea != ma:
+                nb2 += 1
+                if nb2 <= 3:
+                    rp = C.write_replay(prop, {"kind": "move strings accepted by find_move differ from the legal moves", "fen": f,
+                                               "accepted_but_not_legal": sorted(ea - ma)[:10], "legal_but_refused": sorted(ma - ea)[:10]})
+                    violations.append({"replay": rp})
+        cov["acceptance_positions"] = len(acc_fens)
+        cov["acceptance_strings_per_position"] = len(strings)
+    cov["evaluations"] = len(sessions) + len(acc_fens) * len(strings)
     cov["distinct_nontrivial"] = len(set(tuple(s) for s in sessions))
     cov["games"] = len(games)
     cov["rule"] = ("legal games chosen by the engine's generator from the start position, corpus and bench positions, given as "
